@@ -50,14 +50,25 @@ def match_known(machine, known, case, violation):
     for e in known:
         if e.get("status") != "known":
             continue          # fixed entries suppress nothing
-        m = e["match"]
-        if m.get("oracle") not in (None, violation["oracle"]):
-            continue
-        if m.get("class") not in (None, violation["class"]):
-            continue
-        if machine.match_predicate(m.get("where"), case, violation):
-            return e
+        alts = e["match"] if isinstance(e["match"], list) else [e["match"]]
+        for m in alts:
+            if _match_one(machine, m, case, violation):
+                return e
     return None
+
+
+def _match_one(machine, m, case, violation):
+    if m.get("oracle") not in (None, violation["oracle"]):
+        return False
+    if m.get("class") not in (None, violation["class"]) and not \
+            (m.get("class") == "death" and violation["class"].split(":")[0] in ("process_killed", "sanitizer_report")):
+        return False
+    w = m.get("where")
+    if w and w.get("kind") == "crash_site":
+        site = (violation.get("detail") or {}).get("site")
+        return bool(site and site.get("function") and w["function"] in site["function"] and
+                    (w.get("error") is None or w["error"] in (site.get("kind") or "")))
+    return bool(machine.match_predicate(w, case, violation))
 
 
 # ------------------------------------------------------------------------------------------------- shrinking
@@ -77,7 +88,7 @@ def shrink_in_process(machine, node, case, violation, opts, max_execs=3000, max_
             if execs >= max_execs or time.time() - t0 > max_s:
                 return case, violation, execs
             execs += 1
-            res = core.execute_case(machine, node, cand, opts)
+            res = core.execute_case(machine, node, cand, opts, perturb=opts.get("_perturb", 0xA5))
             if same_class(res, target):
                 case, violation = cand, res["violation"]
                 improved = True
@@ -99,7 +110,8 @@ def shrink_violation(machine, libpath, case, violation, opts, perturb):
             signal.signal(signal.SIGALRM, signal.SIG_DFL)
             signal.setitimer(signal.ITIMER_REAL, 240)
             node = Node(libpath)
-            node.perturb(perturb)
+            opts = dict(opts)
+            opts["_perturb"] = perturb
             c, v, n = shrink_in_process(machine, node, case, violation, opts)
             os.write(w, json.dumps({"case": c, "violation": v, "execs": n}, default=core._json_default).encode())
         except BaseException:
@@ -182,7 +194,10 @@ def do_replay(prop, path, flavour, repo):
         got = res["violation"]
     else:
         got = None
-    if got and got["oracle"] == want["oracle"] and got["class"].split(":")[0] == want["class"].split(":")[0]:
+    def fam(c):
+        c = c.split(":")[0]
+        return "death" if c in ("process_killed", "sanitizer_report") else c
+    if got and got["oracle"] == want["oracle"] and fam(got["class"]) == fam(want["class"]):
         print("reproduced: %s/%s" % (got["oracle"], got["class"]))
         if isinstance(res, dict) and res.get("violation", {}).get("detail") is not None:
             print(json.dumps(res["violation"]["detail"], indent=1, default=core._json_default)[:4000])
@@ -190,6 +205,41 @@ def do_replay(prop, path, flavour, repo):
         return 1
     print("not reproduced on this tree (got %s)" % (got,))
     return 0
+
+
+LAST_SANITIZER_TEXT = [""]
+
+
+def crash_site(text):
+    """(kind, function) of the first sanitizer report in text: the call site that identifies a crash finding.
+    The function is the innermost frame that belongs to awkward (a kernel or a libawkward method), not a libstdc++
+    helper it was inlined into."""
+    import re
+    kind = None
+    m = re.search(r"ERROR: AddressSanitizer: (\S+)", text)
+    if m:
+        kind = m.group(1)
+        start = m.end()
+    else:
+        m = re.search(r"(\S+):\d+:\d+: runtime error: ([^\n]+)", text)
+        if not m:
+            return None
+        kind = "ubsan: " + re.sub(r"\d+", "N", m.group(2))[:60]
+        start = m.end()
+    fn = None
+    for fm in re.finditer(r"#\d+ 0x[0-9a-f]+ in ([^\n]+)", text[start:start + 20000]):
+        sig = fm.group(1)
+        sig = re.split(r" /| \(/", sig)[0]
+        head = sig.split("(")[0]
+        names = re.findall(r"([A-Za-z_][\w:]*)\s*(?:<[^()]*>)?\s*$", head)
+        name = names[-1] if names else head
+        if "awkward" in sig and not name.startswith("std::") and not name.startswith("__gnu"):
+            if "awkward" in name or "::" in name:
+                fn = name
+                break
+        if name.startswith("aws_"):
+            break
+    return {"kind": kind, "function": fn}
 
 
 def run_child_maybe_asan(machine, lib, payload, opts, flavour, timeout=120.0):
@@ -204,15 +254,60 @@ def run_child_maybe_asan(machine, lib, payload, opts, flavour, timeout=120.0):
         os.unlink(tmp)
         if p.returncode == 0 and p.stdout.strip():
             return json.loads(p.stdout.decode().strip().splitlines()[-1])
-        tail = p.stderr.decode(errors="replace")[-3000:]
-        log(tail)
+        LAST_SANITIZER_TEXT[0] = p.stderr.decode(errors="replace")
+        log(sanitizer_summary(LAST_SANITIZER_TEXT[0]))
         return WorkerDeath(-1, "exit:%d" % p.returncode)
     return core.run_single_in_child(machine, lib, "case", payload, opts, timeout=timeout)
 
 
+def sanitizer_summary(text, maxframes=14):
+    """the head of a sanitizer report: the error line and the first frames that are not interpreter glue"""
+    out = []
+    keep = False
+    frames = 0
+    for ln in text.splitlines():
+        if "ERROR: AddressSanitizer" in ln or "runtime error:" in ln or "SUMMARY:" in ln:
+            out.append(ln)
+            keep = "SUMMARY:" not in ln
+            frames = 0
+            continue
+        if keep and ln.strip().startswith("#"):
+            if any(x in ln for x in (" in _Py", " in Py", "ffi", "/lib/x86_64", "in method_", "in cfunction", "in builtin_", "in pymain", "in run_", "in pyrun")):
+                continue
+            frames += 1
+            if frames <= maxframes:
+                out.append(ln)
+        elif keep and (ln.startswith("0x") or "is located" in ln or "allocated by" in ln or "freed by" in ln):
+            out.append(ln)
+            frames = 0
+    return "\n".join(out) if out else text[-2000:]
+
+
+def run_asan_capture(machine, lib, payload, opts, timeout=120.0):
+    """like run_child_maybe_asan for the sanitizer node, but thread-safe: returns (result, stderr text)"""
+    import tempfile
+    fd, tmp = tempfile.mkstemp(prefix="tmp-asan-", suffix=".json", dir=buildmod.BUILD)
+    with os.fdopen(fd, "w") as f:
+        json.dump({"payload": payload, "opts": opts, "machine": machine.PROP, "lib": lib}, f, default=core._json_default)
+    try:
+        p = subprocess.run([sys.executable, "-m", "simfw.cli", "--internal-single", tmp], env=asan_env(), cwd=core.VERIF,
+                           stdout=subprocess.PIPE, stderr=subprocess.PIPE, timeout=timeout * 2)
+    except subprocess.TimeoutExpired:
+        os.unlink(tmp)
+        return WorkerDeath(-1, "timeout"), ""
+    os.unlink(tmp)
+    text = p.stderr.decode(errors="replace")
+    if p.returncode == 0 and p.stdout.strip():
+        return json.loads(p.stdout.decode().strip().splitlines()[-1]), text
+    return WorkerDeath(-1, "exit:%d" % p.returncode), text
+
+
 def asan_env():
     env = dict(os.environ)
-    env["LD_PRELOAD"] = buildmod.asan_runtime()
+    # libstdc++ must be loaded together with the sanitizer runtime: its __cxa_throw interceptor is resolved at
+    # start-up, and the interpreter itself does not link libstdc++
+    cxx = subprocess.run([buildmod.CXX, "-print-file-name=libstdc++.so.6"], stdout=subprocess.PIPE).stdout.decode().strip()
+    env["LD_PRELOAD"] = buildmod.asan_runtime() + (" " + cxx if os.path.sep in cxx else "")
     env["ASAN_OPTIONS"] = "detect_leaks=0:exitcode=%d:abort_on_error=0:verify_asan_link_order=0:allocator_may_return_null=1:malloc_fill_byte=203:free_fill_byte=221" % ASAN_EXIT
     env["UBSAN_OPTIONS"] = "halt_on_error=1:exitcode=%d:print_stacktrace=1" % ASAN_EXIT
     return env
@@ -357,46 +452,109 @@ def run_check(prop, tier, seed, repo, runs=None, skip_selftest=False, mutants=Fa
             v = {"oracle": "memory", "class": "result_depends_on_allocator_fill", "detail": None, "at": None}
             stats.violations.append({"i": i, "kind": "violation", "violation": v, "case": case, "seed": core.run_seed(seed, prop, i), "noshrink": True})
 
-    # 4. deaths: reproduce alone, then shrink
-    reports = []     # (index, case, violation-record, flavour)
-    for d in deaths[: opts.get("max_deaths", 6)]:
+    # 4. deaths: reproduce alone; find the crash site on the sanitizer node; known findings are keyed on the site.
+    #    Only a death that matches no known finding is minimised (and then located again).
+    reports = []     # (index, case, violation-record, flavour, perturb)
+    matched = {}
+
+    def locate(case, per, how):
+        nonlocal asan_lib
+        detail = {"died": how}
+        if how == "timeout":
+            return detail
+        try:
+            if asan_lib is None:
+                asan_lib = buildmod.build(repo, "asan")["lib"]
+            r2, text = run_asan_capture(machine, asan_lib, {"case": case, "perturb": per}, opts)
+            if isinstance(r2, WorkerDeath):
+                detail["site"] = crash_site(text)
+                detail["report"] = sanitizer_summary(text, 8)[:3000]
+            else:
+                detail["site"] = None
+                detail["note"] = "dies on the plain node but not under the sanitizer"
+        except buildmod.BuildError:
+            detail["site"] = None
+        return detail
+
+    def analyse_death(d):
         case = regenerate(machine, seed, prop, d.index, opts)
         if case is None:
-            continue
+            return None
         per = 1 + (core.run_seed(seed, prop, d.index) >> 8) % 254
-        uselib, flav = (asan_lib, "asan") if getattr(d, "asan", False) else (lib, "plain")
+        if getattr(d, "asan", False):
+            res, text = run_asan_capture(machine, asan_lib, {"case": case, "perturb": per}, opts)
+            if not isinstance(res, WorkerDeath):
+                return ("note", "run %d died under the sanitizer in the batch but not alone" % d.index)
+            orc, cls = death_class(res.how)
+            v = {"oracle": orc, "class": cls, "at": None,
+                 "detail": {"died": res.how, "site": crash_site(text), "report": sanitizer_summary(text, 8)[:3000]}}
+            return ("report", d.index, case, v, "asan", per)
         o = dict(opts)
         if d.how == "timeout":
-            o["run_timeout"] = opts.get("run_timeout", 20.0) * 10
-        res = run_child_maybe_asan(machine, uselib, {"case": case, "perturb": per}, o, flav, timeout=o.get("run_timeout", 20.0))
+            o["run_timeout"] = opts.get("run_timeout", 20.0) * 5
+        res = core.run_single_in_child(machine, lib, "case", {"case": case, "perturb": per}, o, timeout=o.get("run_timeout", 20.0))
         if not isinstance(res, WorkerDeath):
-            ck.notes.append("run %d died (%s) in the batch but not alone: inconclusive, not reported" % (d.index, d.how))
-            continue
-        if flav == "plain":
-            case, how, n = shrink_death(machine, lib, case, res.how, opts, per)
-        else:
-            how = res.how
+            return ("note", "run %d died (%s) in the batch but not alone: inconclusive, not reported" % (d.index, d.how))
+        orc, cls = death_class(res.how)
+        v = {"oracle": orc, "class": cls, "at": None, "detail": locate(case, per, res.how)}
+        if match_known(machine, known, case, v) is not None:
+            return ("report", d.index, case, v, "plain", per)
+        case2, how, n = shrink_death(machine, lib, case, res.how, opts, per)
         orc, cls = death_class(how)
-        reports.append((d.index, case, {"oracle": orc, "class": cls, "detail": {"died": how}, "at": None}, flav, per))
-    if len(deaths) > opts.get("max_deaths", 6):
-        ck.notes.append("%d more worker deaths not analysed individually" % (len(deaths) - opts.get("max_deaths", 6)))
+        v = {"oracle": orc, "class": cls, "at": None, "detail": locate(case2, per, how)}
+        return ("report", d.index, case2, v, "plain", per)
 
-    # 5. violations: shrink (a few per class), match against known findings
-    by_class = {}
+    maxd = opts.get("max_deaths", 40)
+    if deaths:
+        if asan_lib is None:
+            try:
+                asan_lib = buildmod.build(repo, "asan")["lib"]
+            except buildmod.BuildError as e:
+                log("BUILD FAILED (asan)\n" + str(e))
+                return 2
+        import concurrent.futures
+        with concurrent.futures.ThreadPoolExecutor(max_workers=8) as ex:
+            for out in ex.map(analyse_death, deaths[:maxd]):
+                if out is None:
+                    continue
+                if out[0] == "note":
+                    ck.notes.append(out[1])
+                else:
+                    reports.append(out[1:])
+    if len(deaths) > maxd:
+        ck.notes.append("%d more worker deaths not analysed individually" % (len(deaths) - maxd))
+
+    # 5. violations: those that match a known finding as they are need no minimisation; the others are minimised
+    #    (in parallel, each inside its own child process) and matched again
+    todo = []
     for r in stats.violations:
+        e = match_known(machine, known, r["case"], r["violation"])
+        if e is not None:
+            matched.setdefault(e["id"], e)
+        else:
+            todo.append(r)
+    by_class = {}
+    for r in todo:
         v = r["violation"]
         by_class.setdefault((v["oracle"], v["class"]), []).append(r)
+    chosen = []
     for key in sorted(by_class):
         group = by_class[key]
-        for r in group[: opts.get("shrink_per_class", 3)]:
-            per = 1 + (r.get("seed", 0) >> 8) % 254
-            if r.get("noshrink"):
-                case, v = r["case"], r["violation"]
-            else:
-                case, v, n = shrink_violation(machine, lib, r["case"], r["violation"], opts, per)
-            reports.append((r["i"], case, v, "plain", per))
-        if len(group) > opts.get("shrink_per_class", 3):
-            ck.notes.append("%d further runs violated %s/%s (not minimised)" % (len(group) - opts.get("shrink_per_class", 3), key[0], key[1]))
+        k = opts.get("shrink_per_class", 3)
+        chosen.extend(group[:k])
+        if len(group) > k:
+            ck.notes.append("%d further runs violated %s/%s (not minimised)" % (len(group) - k, key[0], key[1]))
+
+    def shrink_one(r):
+        per = 1 + (r.get("seed", 0) >> 8) % 254
+        if r.get("noshrink"):
+            return (r["i"], r["case"], r["violation"], "plain", per)
+        case, v, n = shrink_violation(machine, lib, r["case"], r["violation"], opts, per)
+        return (r["i"], case, v, "plain", per)
+    if chosen:
+        import concurrent.futures
+        with concurrent.futures.ThreadPoolExecutor(max_workers=8) as ex:
+            reports.extend(ex.map(shrink_one, chosen))
 
     # 6. regression replays of repaired defects: must not come back
     regress = run_regressions(prop, machine, lib, opts)
@@ -406,7 +564,6 @@ def run_check(prop, tier, seed, repo, runs=None, skip_selftest=False, mutants=Fa
 
     # 7. verdict
     exit_code = 0
-    matched = {}
     nviol = 0
     for index, case, v, flav, per in reports:
         e = match_known(machine, known, case, v)
@@ -606,8 +763,7 @@ def internal_single(path):
     from .node import Node
     os.dup2(os.open(os.devnull, os.O_WRONLY), 1) if False else None
     node = Node(d["lib"])
-    node.perturb(d["payload"].get("perturb", 0xA5))
-    res = core.execute_case(machine, node, d["payload"]["case"], d["opts"])
+    res = core.execute_case(machine, node, d["payload"]["case"], d["opts"], perturb=d["payload"].get("perturb", 0xA5))
     sys.stdout.write("\n" + json.dumps(res, default=core._json_default) + "\n")
     return 0
 
